@@ -236,14 +236,16 @@ def run_families(ctx, plans, relevant):
             ctx.count('edges_covered_by_replay', ncov)
             ctx.extra.setdefault('edge_cover_complete', {})[fam_name] = (ncov == len(g.edges))
             behs = [g.behaviour(p)[1] for p in cover + walks]
-            jobs, bad = replay_behaviours(ctx, model, behs, opts=plan.get('opts'), label=fam_name + '/graph')
+            jobs, bad = replay_behaviours(ctx, model, behs, opts=dict(plan.get('opts') or {}, relevant=sorted(relevant)),
+                                          label=fam_name + '/graph')
             _account_cases(ctx, model, jobs, fam_name)
             report_mismatches(ctx, model, jobs, bad, relevant, fam_name)
         sim = dict(plan.get('sim') or {})
         if sim:
             model = Model(fam, rcs=sim.pop('rcs', None), lists=sim.pop('lists', None))
             sb = simulate(ctx, model, fam_name, sim.pop('num'), sim.pop('depth'), slots=sim.pop('slots', 2), **sim)
-            jobs, bad = replay_behaviours(ctx, model, sb, opts=plan.get('opts'), label=fam_name + '/sim')
+            jobs, bad = replay_behaviours(ctx, model, sb, opts=dict(plan.get('opts') or {}, relevant=sorted(relevant)),
+                                          label=fam_name + '/sim')
             _account_cases(ctx, model, jobs, fam_name)
             report_mismatches(ctx, model, jobs, bad, relevant, fam_name)
 
